@@ -383,11 +383,30 @@ pub fn run(ctx: &Ctx) -> (Vec<Case>, String, bool, BTreeMap<String, String>) {
     let mut cases = crate::runner::par_cases(ctx, "C09", "model", scen.len(), |i, id| one_case(&scen[i], id, ctx.case_rng("model", i)));
     let (mm, mmio_rule) = crate::c08_mmio::run_mmio_c09(ctx);
     cases.extend(mm);
+    // buffers a driver owns on behalf of non-blocking requests (sound: frames and status word of
+    // pcm_xfer_nb) must not be released while their chain is posted: polls before completion and out
+    // of order, with the heap watched during the call
+    let mut snd = crate::c20_cmd::sound_cases(ctx, "C09", ctx.tier.pick(300, 5000));
+    for c in snd.iter_mut() {
+        c.oracle_failures.retain(|f| f.starts_with("[C09]"));
+        c.id = format!("C09-via-{}", c.id);
+        c.tag("driver-level");
+    }
+    cases.extend(snd);
+    // the network driver's receive buffers (owned by the driver while posted): runt frames, buffers
+    // held by the caller, recycling in any order
+    let mut net = crate::c16_net::run(ctx).0;
+    for c in net.iter_mut() {
+        c.oracle_failures.retain(|f| f.starts_with("[C09]"));
+        c.id = format!("C09-via-{}", c.id);
+        c.tag("driver-level");
+    }
+    cases.extend(net);
     if ctx.wants(&selftest.id) {
         cases.push(selftest);
     }
     let rule = format!(
-        "model transport + ledger HAL: 11 drivers x (modern, legacy) x feature words {{0, all ones, VERSION_1|INDIRECT, ACCESS_PLATFORM|EVENT_IDX, random}} x (DMA fault at allocation k = 0..10, i.e. every allocation of the run and beyond; config space missing / too short / 9p zero-length tag; transport max_queue_size in {{0,1,2,4,8,16,31}}; net receive buffers too short) and drop after construction / after a short random usage history with an obliging device; compared: ordered log of status writes, feature/queue calls, dma_alloc/dma_dealloc with region ids, queue_unset, transport drop, frees of heap blocks holding buffers still shared with the device; non-trivial = at least one DMA region was allocated. {}",
+        "model transport + ledger HAL: 11 drivers x (modern, legacy) x feature words {{0, all ones, VERSION_1|INDIRECT, ACCESS_PLATFORM|EVENT_IDX, random}} x (DMA fault at allocation k = 0..10, i.e. every allocation of the run and beyond; config space missing / too short / 9p zero-length tag; transport max_queue_size in {{0,1,2,4,8,16,31}}; net receive buffers too short) and drop after construction / after a short random usage history with an obliging device; compared: ordered log of status writes, feature/queue calls, dma_alloc/dma_dealloc with region ids, queue_unset, transport drop, frees of heap blocks holding buffers still shared with the device; non-trivial = at least one DMA region was allocated. {} Plus the sound stream of C20 with the heap watched during pcm_xfer_ok (polled before completion and out of order): no driver-owned buffer may be freed while still shared.",
         mmio_rule
     );
     let mut extra = BTreeMap::new();
